@@ -73,3 +73,10 @@ From PFL Require Import Proofs.RegexStr.
 Theorem C05_str_round_trip : forall r : re, no_empty r -> parse_regex (pr_py r) = Some r.
 Proof. exact str_round_trip. Qed.
 Print Assumptions C05_str_round_trip.
+
+(* the mirror of pyformlang's own parser (Model/RegexReader.v) reads back the text of str() of every expression without a Kleene
+   star (partial: the star case, where _compute_precedence inserts parentheses, is covered by the correspondence only) *)
+From PFL Require Import Model.RegexReader Proofs.RegexReader.
+Theorem C05_parser_mirror_reads_str_partial : forall r : re, no_empty r -> no_star r -> reader_regex (pr_py r) = inl r.
+Proof. exact reader_str_round_trip. Qed.
+Print Assumptions C05_parser_mirror_reads_str_partial.
